@@ -306,7 +306,7 @@ def run(ck):
     vlib.build_modelrun("c18")
     res = vlib.coq_check_properties("C18")
     broken = ck.proof_result(res, CHECKER)
-    forb = vlib.coq_forbidden_scan()
+    forb = vlib.coq_forbidden_scan("C18")
     ck.extra["forbidden_tokens"] = forb
     ck.cov["trusted_base"] = [
         "Coq 8.16.1 kernel + vm_compute (no native_compute)",
